@@ -288,8 +288,11 @@ def _scene(model, seed, F, K, N, D, tag):
     y = A.generic_data(seed, lead + (N, D), 'scene', tag, model, complex_=cplx)
     if model in M.INTEGRATION:
         emb = A.generic_data(seed, lead + (N, 3), 'scene-emb', tag, model, complex_=False)
+        # vMF-cACGMM: the embeddings are deliberately NOT unit vectors (lengths 0.3 ... 3): projecting them onto
+        # the sphere is the trainer's job, in the M-step as well as in the E-step
         if model == 'vmfcacgmm':
-            emb = emb / np.linalg.norm(emb, axis=-1, keepdims=True)
+            emb = emb / np.linalg.norm(emb, axis=-1, keepdims=True) * (0.3 + 2.7 * A.rng(seed, 'emb-len', tag).uniform(
+                size=lead + (N, 1)))
         return (y, emb), lead
     return y, lead
 
@@ -374,10 +377,11 @@ def run_alternation(key):
         # blurred partition with the classes permuted in some frequencies
         y, labels = A.clustered_data(seed, (F,), K, N // K, D, 'alt-bi', model, noise=0.2)
         N = y.shape[-2]
+        r_len = A.rng(seed, 'alt-bi-len', model, K)
         emb, _ = A.clustered_data(seed, (F,), K, N // K, 3, 'alt-bi-emb', model, complex_=False, noise=0.2,
                                   protos=A.unit_vectors(seed, K, 3, 'alt-bi-p', model, complex_=False, max_cos=0.8))
         if model == 'vmfcacgmm':
-            emb = emb / np.linalg.norm(emb, axis=-1, keepdims=True)
+            emb = emb / np.linalg.norm(emb, axis=-1, keepdims=True) * (0.3 + 2.7 * r_len.uniform(size=(F, N, 1)))
         data, lead = (y, emb), (F,)
         init = A.partition_affiliation(labels, K, blur=0.3, lead=lead)
         perms = [list(range(K)), list(np.roll(np.arange(K), 1)), list(np.arange(K)[::-1])]
